@@ -1,4 +1,4 @@
-import SignalGen.Generated
+import SignalGen.Gen.Kernels
 import SignalProofs.Lemmas.Quant
 /-!
 # Regenerated tie, C06 / C07: the four fixed→fixed per-sample kernels as the Go source defines them now
